@@ -545,6 +545,19 @@ def link_requests(run, tier):
         edge += [8388608 - 8 - ofc, 8388608 - 8 - ofc + 1, 5 * 1024 * 1024, 8388608 - 8 - 16 - ofc - 1]
     for n in edge:
         reqs.append((W.link_request([], [W.chunk_response(rng, n)]), 'buffer-edge'))
+    # messages that end within the last bytes below a power of two (header 8 + body + tag 16): any buffer that is sized
+    # from the message alone and rounded to a power of two has no room for the tag exactly here
+    pows = [1 << e for e in range(16, 23)]
+    for P in pows:
+        ks = list(range(0, 18)) if not quick else sorted(rng.sample(range(1, 16), 2) + [0, 16])
+        for k in ks:
+            n = P - 8 - ofc - k
+            if rng.random() < 0.5:
+                reqs.append((W.link_request([W.small_command(rng)], [W.small_response(rng), W.chunk_response(rng, n), W.small_response(rng)]), 'pow2-edge'))
+            else:
+                plen = rng.choice([1, 40, 255])
+                nn = P - 8 - (ocf - 12) - plen - k
+                reqs.append((W.link_request([W.small_command(rng), W.chunk_command(rng, nn, W.long_path(rng, plen), mtime=False), W.small_command(rng)], [W.small_response(rng)]), 'pow2-edge'))
     for plen in ([1000] if quick else [0, 255, 4095]):
         for extra in ((0, 1) if not quick else (rng.choice([0, 1]),)):
             n = 8388608 - 8 - 16 - (ocf - 12) - plen + extra          # without a modification time
